@@ -49,7 +49,8 @@ SuccI(i, pc, d) ==
       [] i.op \in {"RETURN", "PANIC"} -> {}
       [] i.op \in Bin2to1 -> {<<pc + 1, d - 1>>}
       [] i.op \in Un1to1 \cup {"LOCALINCDEC", "LOCALZERO", "GLOBALZERO", "PASS", "GETOK"} -> {<<pc + 1, d>>}
-      [] i.op \in {"DELETE", "COPY", "SETATTR", "SETMETHOD"} -> {<<pc + 1, d - 2>>}
+      [] i.op \in {"DELETE", "SETATTR", "SETMETHOD"} -> {<<pc + 1, d - 2>>}
+      [] i.op = "COPY" -> {<<pc + 1, d - 2 + (IF i.c # 0 THEN 1 ELSE 0)>>}   \* C: the count is asked for
       [] i.op = "SET" -> {<<pc + 1, d - 3>>}
       [] i.op = "SLICE" -> {<<pc + 1, d - 2>>}
       [] i.op = "APPEND" -> {<<pc + 1, d - i.a + 1>>}
